@@ -75,7 +75,7 @@ def reserved_places(rt):
     return out
 
 
-def oracle_structured(ctx, case, view, reserved=frozenset()):
+def oracle_structured(ctx, case, view, reserved=frozenset(), late_reports=False):
     # group by action: an action is identified by (uuid, L) where some message has level L+[1] with action_status started
     # positions used under (uuid, L): first components after L of all messages whose level extends L
     by_uuid = {}
@@ -118,16 +118,48 @@ def oracle_structured(ctx, case, view, reserved=frozenset()):
             if len(ends) > 1:
                 ctx.violation("action %s%s has %d end messages" % (u, list(L), len(ends)), case)
                 return
-            if ends and ends[0][0][-1] != len(ks):
+            last = len(ks)
+            if late_reports and ends:
+                # an action finished while it is still the current one receives the eliot:destination_failure reports about
+                # its own end message (with `with`, the context is reset first and they go to the parent)
+                direct = {lvl[-1]: m for lvl, i, m in msgs if len(lvl) == len(L) + 1 and tuple(lvl[:len(L)]) == L}
+                while last > ends[0][0][-1] and direct.get(last, {}).get("message_type") == "eliot:destination_failure":
+                    last -= 1
+            if ends and ends[0][0][-1] != last:
                 ctx.violation("end message of action %s%s is at position %d of %d" % (u, list(L), ends[0][0][-1], len(ks)), case)
                 return
 
 
-def has_unfinished_effects(case):
-    return False
+def explicit_finish(case, rng):
+    """Rewrite some `with start_action(...)` blocks of a structured program into the explicit spelling
+    `a = start_action(...); with a.context(): body; a.finish(exc)` - the action is finished while it is still the
+    current one, so whatever eliot itself logs while finishing (an extractor that raises) lands inside it."""
+    counter = [0]
+
+    def walk(block):
+        out = []
+        for s in block:
+            s = dict(s)
+            for k in ("body", "handler"):
+                if k in s:
+                    s[k] = walk(s[k])
+            if s["op"] == "with" and not (s["body"] and s["body"][-1]["op"] == "raise") and rng.random() < 0.6:
+                x = counter[0]
+                counter[0] += 1
+                exc = None if rng.random() < 0.25 else rng.randint(0, 7)
+                sers = s["spec"].get("sers") or {}
+                if exc is None and sers.get("success"):
+                    # a success field the serializer requires must be there (a missing one is a failing field serializer)
+                    s["body"] = s["body"] + [dict(op="addSuccess", x=None, fs=[[k, {"n": 1}] for k, _ in sers["success"]])]
+                out.append(dict(op="startAs", x=x, task=s["task"], spec=s["spec"]))
+                out.append(dict(op=rng.choice(["inContext", "runIn"]), x=x, body=s["body"] + [dict(op="finish", x=x, exc=exc)]))
+            else:
+                out.append(s)
+        return out
+    return dict(case, prog=walk(case["prog"]))
 
 
-def make_oracle(structured):
+def make_oracle(structured, late_reports=False):
     def oracle(ctx, case, real, rt):
         if real["outcome"] == "stuck":
             return
@@ -142,7 +174,7 @@ def make_oracle(structured):
         real["_nview"] = len(view)
         real["_fail"] = len(rt.failures)
         if oracle_common(ctx, case, view) and structured:
-            oracle_structured(ctx, case, view, reserved_places(rt))
+            oracle_structured(ctx, case, view, reserved_places(rt), late_reports)
     return oracle
 
 
@@ -152,14 +184,23 @@ def nontrivial(case, real, st):
 
 def run(ctx):
     n = ctx.budget(500, 16000)
-    syscorr.run_programs(ctx, (3 * n) // 5, STRUCT, make_oracle(True), label="struct", nontrivial=nontrivial,
+    syscorr.run_programs(ctx, n // 5, dict(STRUCT, p_ext_fail=0.7, p_extractor=0.8), make_oracle(True, late_reports=True), label="explicit-finish",
+                         nontrivial=nontrivial, compare=["offered", "accepted", "outcome"], transform=explicit_finish)
+    syscorr.run_programs(ctx, (2 * n) // 5, STRUCT, make_oracle(True), label="struct", nontrivial=nontrivial,
                          compare=["offered", "accepted", "outcome"])
     syscorr.run_programs(ctx, (2 * n) // 5, UNSTRUCT, make_oracle(False), label="unstruct", nontrivial=nontrivial,
                          compare=["offered", "accepted", "outcome"])
+
+
+def _all_stmts(block):
+    for s in block:
+        yield s
+        for k in ('body', 'handler'):
+            yield from _all_stmts(s.get(k, []))
 
 
 def replay(ctx, obj):
     case = obj["case"]
     real, rt = sysinterp.run_case(case)
     print(real["outcome"], len(real["offered"]))
-    make_oracle(obj.get('extra') != 'unstructured')(ctx, case, real, rt)
+    make_oracle(obj.get('extra') != 'unstructured', late_reports=any(s['op'] == 'startAs' for s in _all_stmts(case['prog'])))(ctx, case, real, rt)
